@@ -6,6 +6,7 @@ import (
 	"sync"
 
 	"go.mongodb.org/mongo-driver/bson"
+	"go.mongodb.org/mongo-driver/bson/primitive"
 
 	"verifharness/internal/gen"
 	"verifharness/internal/model"
@@ -131,6 +132,63 @@ type biaser struct {
 	r     *gen.R
 	paths []string
 	vals  []interface{}
+	arrs  []bson.A // the array values of the document (members of $all: an array member equals a whole array value)
+}
+
+// existsDecs are Decimal128 arguments of $exists (in-domain since the repair of D6): zeros of either sign and
+// any exponent and the "11" combination form (read as coefficient 0) are falsy; non-zero, NaN and the infinities truthy.
+var existsDecs = func() []primitive.Decimal128 {
+	out := []primitive.Decimal128{
+		primitive.NewDecimal128(0x6000000000000000, 7), // "11" form: coefficient 0
+		primitive.NewDecimal128(0x7c00000000000001, 5), // NaN with payload
+		primitive.NewDecimal128(0xfc00000000000000, 0), // -NaN
+	}
+	for _, s := range []string{"0", "-0", "0E+3", "0E-5", "-0E+6111", "0.00", "1", "-1", "0.1", "1E-6176", "1E+3", "NaN", "Infinity", "-Infinity"} {
+		d, err := primitive.ParseDecimal128(s)
+		if err != nil {
+			panic(err)
+		}
+		out = append(out, d)
+	}
+	return out
+}()
+
+// specDocArrays collects the array values of a document (at any depth).
+func specDocArrays(v interface{}, out *[]bson.A) {
+	switch x := v.(type) {
+	case bson.D:
+		for _, e := range x {
+			specDocArrays(e.Value, out)
+		}
+	case bson.A:
+		*out = append(*out, x)
+		for _, e := range x {
+			specDocArrays(e, out)
+		}
+	}
+}
+
+// arrMember returns an array-valued member for $all: mostly one of the document's own arrays (so that the
+// member can equal a whole array value), a permutation/prefix of one, or a fresh array of document values.
+func (b *biaser) arrMember() bson.A {
+	if len(b.arrs) > 0 && b.r.P(75) {
+		a := b.arrs[b.r.N(len(b.arrs))]
+		switch {
+		case len(a) > 1 && b.r.P(15):
+			return append(bson.A{}, a[1:]...)
+		case len(a) > 1 && b.r.P(15):
+			c := append(bson.A{}, a...)
+			c[0], c[len(c)-1] = c[len(c)-1], c[0]
+			return c
+		}
+		return a
+	}
+	n := b.r.N(3)
+	a := bson.A{}
+	for i := 0; i < n; i++ {
+		a = append(a, b.val(b.r.Scalar()))
+	}
+	return a
 }
 
 func (b *biaser) path(old string) string {
@@ -169,7 +227,20 @@ func (b *biaser) ops(od bson.D) bson.D {
 				if len(na) == 0 && b.r.P(70) {
 					na = append(na, b.val(nil))
 				}
+				// $all with array-valued members (in-domain without a fan-out since the repair of D7)
+				if o.Key == "$all" && b.r.P(35) {
+					if len(na) > 0 && b.r.P(50) {
+						na[b.r.N(len(na))] = b.arrMember()
+					} else {
+						na = append(na, b.arrMember())
+					}
+				}
 				o.Value = na
+			}
+		case "$exists":
+			// Decimal128 arguments (in-domain since the repair of D6)
+			if b.r.P(40) {
+				o.Value = existsDecs[b.r.N(len(existsDecs))]
 			}
 		case "$not":
 			if d, ok := o.Value.(bson.D); ok {
@@ -261,6 +332,38 @@ func opNames(q bson.D, root bool, out *[]string) {
 	}
 }
 
+// c10Feats reports whether a filter has a `$exists` with a Decimal128 argument / a `$all` with an array-valued member.
+func c10Feats(q bson.D, decExists, arrAll *bool) {
+	var walk func(v interface{})
+	walk = func(v interface{}) {
+		switch x := v.(type) {
+		case bson.D:
+			for _, e := range x {
+				switch e.Key {
+				case "$exists":
+					if _, ok := e.Value.(primitive.Decimal128); ok {
+						*decExists = true
+					}
+				case "$all":
+					if a, ok := e.Value.(bson.A); ok {
+						for _, m := range a {
+							if _, ok := m.(bson.A); ok {
+								*arrAll = true
+							}
+						}
+					}
+				}
+				walk(e.Value)
+			}
+		case bson.A:
+			for _, m := range x {
+				walk(m)
+			}
+		}
+	}
+	walk(q)
+}
+
 // shrinkCands are the immediate sub-filters of q that could carry a disagreement on their own.
 func shrinkCands(q bson.D) []bson.D {
 	var out []bson.D
@@ -347,8 +450,6 @@ func classify(doc, q bson.D, impl string) string {
 	switch op {
 	case "$size": // known finding D3
 		return "spec:$size:" + dir
-	case "$all": // known finding D5
-		return "spec:$all:" + dir
 	}
 	return "spec:" + op + ":unexplained"
 }
@@ -366,6 +467,14 @@ func specCase(doc, q bson.D) run.Case {
 			seen[n] = true
 			tags = append(tags, "op:"+n)
 		}
+	}
+	var decExists, arrAll bool
+	c10Feats(q, &decExists, &arrAll)
+	if decExists {
+		tags = append(tags, "feat:$exists-decimal")
+	}
+	if arrAll {
+		tags = append(tags, "feat:$all-array-member")
 	}
 	c := run.Case{Req: req, Impl: impl, Tags: tags}
 	if run.NoModel {
@@ -389,6 +498,13 @@ func specCase(doc, q bson.D) run.Case {
 				c.Tags = append(c.Tags, "in-domain-op:"+n)
 			}
 		}
+		res := strings.TrimSuffix(strings.TrimPrefix(impl, `{"ok":`), `}`)
+		if decExists {
+			c.Tags = append(c.Tags, "in-domain-feat:$exists-decimal", "in-domain-feat:$exists-decimal:"+res)
+		}
+		if arrAll {
+			c.Tags = append(c.Tags, "in-domain-feat:$all-array-member", "in-domain-feat:$all-array-member:"+res)
+		}
 	default:
 		// in-domain disagreement: shrink, classify, report as a violation (and accept the model
 		// reply so that the same fact is not counted twice)
@@ -408,9 +524,9 @@ func specCase(doc, q bson.D) run.Case {
 }
 
 // specCorpus: directed pairs — the witnesses of the deviation classes found so far (D1 $type null, D2 $exists over
-// empty-array candidates, D4 $elemMatch on non-documents: fixed in the code, must agree now; D3 $size below two
-// fan-outs, D5 $all over array-valued fan-out candidates: known findings; D6 decimal $exists argument, D7 $all with an
-// array member: outside the core domain) plus their agreeing neighbours.
+// empty-array candidates, D4 $elemMatch on non-documents, D5 $all over array-valued fan-out candidates, D6 decimal
+// $exists argument, D7 $all with an array member: fixed in the code, in-domain, must agree now; D3 $size below two
+// fan-outs: known finding) plus their agreeing neighbours.
 func specCorpus() []run.Case {
 	D := func(kv ...interface{}) bson.D {
 		d := bson.D{}
@@ -421,6 +537,13 @@ func specCorpus() []run.Case {
 	}
 	one := int32(1)
 	two := int32(2)
+	dec := func(s string) primitive.Decimal128 {
+		d, err := primitive.ParseDecimal128(s)
+		if err != nil {
+			panic(err)
+		}
+		return d
+	}
 	pairs := [][2]bson.D{
 		// $type null vs absent / explicit null
 		{D("b", one), D("a", D("$type", "null"))},
@@ -431,21 +554,39 @@ func specCorpus() []run.Case {
 		{D("a", bson.A{D("b", bson.A{})}), D("a.b", D("$exists", false))},
 		{D("a", bson.A{D("b", bson.A{one})}), D("a.b", D("$exists", true))},
 		{D("a", bson.A{D("c", one)}), D("a.b", D("$exists", true))},
-		// $exists with a decimal zero argument
+		// $exists with a decimal argument (D6): 0, 1, then -0, 0E+3, "11" form, NaN, ±Infinity; present and absent field
 		{D("a", one), D("a", D("$exists", gen.Decs[0]))},
 		{D("a", one), D("a", D("$exists", gen.Decs[2]))},
+		{D("a", one), D("a", D("$exists", dec("-0")))},
+		{D("a", one), D("a", D("$exists", dec("0E+3")))},
+		{D("a", one), D("a", D("$exists", dec("0E-5")))},
+		{D("a", one), D("a", D("$exists", primitive.NewDecimal128(0x6000000000000000, 7)))},
+		{D("a", one), D("a", D("$exists", dec("NaN")))},
+		{D("a", one), D("a", D("$exists", dec("Infinity")))},
+		{D("a", one), D("a", D("$exists", dec("-Infinity")))},
+		{D("b", one), D("a", D("$exists", dec("0E+3")))},
+		{D("b", one), D("a", D("$exists", dec("0.1")))},
+		{D("a", bson.A{D("b", bson.A{})}), D("a.b", D("$exists", dec("-0")))},
 		// $size below two fan-outs
 		{D("a", bson.A{D("b", bson.A{D("c", one), D("c", two)})}), D("a.b.c", D("$size", two))},
 		{D("a", bson.A{D("b", bson.A{D("c", bson.A{}), D("c", two)})}), D("a.b.c", D("$size", int32(0)))},
 		{D("a", bson.A{D("b", bson.A{one, two})}), D("a.b", D("$size", two))},
-		// $all over a fan-out with array-valued candidates
+		// $all over a fan-out with array-valued candidates (D5: the members are found in different candidates)
 		{D("a", bson.A{D("b", bson.A{one}), D("b", two)}), D("a.b", D("$all", bson.A{one, two}))},
 		{D("a", bson.A{D("b", bson.A{one}), D("b", bson.A{two})}), D("a.b", D("$all", bson.A{one, two}))},
 		{D("a", bson.A{D("b", one), D("b", two)}), D("a.b", D("$all", bson.A{one, two}))},
 		{D("a", bson.A{D("b", bson.A{one, two})}), D("a.b", D("$all", bson.A{one, two}))},
-		// $all with an array member next to other members (no fan-out)
+		{D("a", bson.A{D("b", bson.A{one}), D("b", two)}), D("a.b", D("$all", bson.A{one, int32(3)}))},
+		{D("a", bson.A{D("b", bson.A{one}), D("c", two)}), D("a.b", D("$all", bson.A{one, two}))},
+		// $all with an array member next to other members (D7; no fan-out)
 		{D("a", bson.A{one, two}), D("a", D("$all", bson.A{bson.A{one, two}, one}))},
 		{D("a", bson.A{one, two}), D("a", D("$all", bson.A{bson.A{one, two}}))},
+		{D("a", bson.A{one, two}), D("a", D("$all", bson.A{bson.A{two, one}, one}))},
+		{D("a", bson.A{one, two}), D("a", D("$all", bson.A{bson.A{one, two}, int32(3)}))},
+		{D("a", bson.A{}), D("a", D("$all", bson.A{bson.A{}}))},
+		{D("a", one), D("a", D("$all", bson.A{bson.A{one}}))},
+		{D("b", one), D("a", D("$all", bson.A{nil}))},
+		{D("a", bson.A{one, two}), D("a", D("$all", bson.A{}))},
 		// $elemMatch, field form, on elements that are not documents
 		{D("a", bson.A{one}), D("a", D("$elemMatch", D("b", nil)))},
 		{D("a", bson.A{one}), D("a", D("$elemMatch", D("b", D("$exists", false))))},
@@ -483,6 +624,7 @@ func init() {
 			q := Filter(r, 2, false)
 			b := &biaser{r: r}
 			specDocPaths(doc, "", false, &b.paths, &b.vals)
+			specDocArrays(doc, &b.arrs)
 			q = b.filter(q)
 			return []run.Case{specCase(doc, q)}
 		},
